@@ -89,3 +89,32 @@ impl Model {
         }
     }
 }
+
+#[cfg(test)]
+mod tests {
+    use super::*;
+
+    #[test]
+    fn model_follows_the_statement_of_c01() {
+        let mut m = Model::new(OV(1, 1, 1));
+        let a = m.subscribe(false);
+        let r = m.subscribe(true);
+        assert_eq!(m.poll(a), Exp::Pending);
+        assert_eq!(m.poll(r), Exp::Value(OV(1, 1, 1)), "a reset subscriber yields the current value once");
+        assert_eq!(m.poll(r), Exp::Pending);
+        assert_eq!(m.set_if_not_eq(OV(1, 1, 9)), None, "equal by Eq (the tag is invisible): nothing changes");
+        assert_eq!(m.value, OV(1, 1, 1));
+        assert_eq!(m.set_if_hash_not_eq(OV(1, 2, 3)), None, "same key = same hash");
+        assert_eq!(m.set_if_not_eq(OV(1, 2, 3)), Some(OV(1, 1, 1)));
+        m.update_if(1, false);
+        assert_ne!(m.value, OV(1, 2, 3), "update_if may mutate silently");
+        let v = m.value;
+        assert_eq!(m.poll(a), Exp::Value(v), "one notifying update is pending for a, intermediate values are skipped");
+        assert_eq!(m.poll(a), Exp::Pending);
+        assert_eq!(m.next_now(r), v);
+        assert_eq!(m.poll(r), Exp::Pending, "next_now marks as observed");
+        m.drop_owner();
+        assert_eq!(m.poll(a), Exp::End);
+        assert_eq!(m.poll(a), Exp::End);
+    }
+}
